@@ -92,7 +92,7 @@ CHECKS = {
                 note="finite key universes as stated; find() compared for membership only (as the property says)"),
     "C07": dict(engine="vsched+venum", technique=E3 + " with every case executed on the scheduler's deterministic default schedule (ASan and TSan builds); " + E1 + " for schedule independence", design="4/C07",
                 text="Every tuple of <=3 sorted sequences over 3 keys (lengths 0..2 quick / 0..3 thorough), 4-tuples over 2 keys, dominant-sequence tuples, x every length "
-                     "0..total x threads {1,2,3,5}/{1..5,8,32} x exact/sampling(oversampling 1,2,10) x stable/unstable x entry points (front end with force_parallel, "
+                     "0..total x threads {1,2,3,5}/{1,2,3,5,32} x exact/sampling(oversampling 1,2,10) x stable/unstable x entry points (front end with force_parallel, "
                      "with minimal_n/k=0, _sentinels, _base) x merge algorithms: output equals the sequential (stable) merge, return value, inputs advanced by exactly "
                      "the contributed counts, every output slot written exactly once (write-counting target iterator), ASan. The workers do not synchronise between fork "
                      "and join, so the single TSan execution per input decides race freedom for all schedules; 20 scenarios are additionally explored over all interleavings.",
